@@ -91,6 +91,7 @@ fn tune(prop: &str, cfg: &mut GenCfg, seed: u64) {
                 cfg.max_readers = r.range(1, 3) as u32;
                 cfg.p_reopen = 0;
             }
+            cfg.damage_on_reopen = true;
             cfg.p_drop = *r.pick(&[30, 50, 70]);
             cfg.p_ro = *r.pick(&[10, 25]);
             cfg.ro_mutators = true;
